@@ -10,6 +10,7 @@ import (
 	dagpb "github.com/ipld/go-codec-dagpb"
 	"io"
 	"strings"
+	"sync"
 	"testing"
 
 	"github.com/ipfs/go-cid"
@@ -645,4 +646,79 @@ func TestC05_P_RawLeafNodesWithoutBlockSizes(t *testing.T) {
 			fmt.Sprintf("blocksizes:%v", !noBS), fmt.Sprintf("emptyChunkOutsideRange:%v", emptyOutside), fmt.Sprintf("depth:%d", fc.Tree.Depth()))
 		ev.Sample(map[string]any{"file": fc.Desc, "a": a, "b": b, "allowed_blocks": len(allowed), "total_blocks": len(fc.Tree.PreOrder())})
 	})
+}
+
+// Laziness does not depend on who else is using the node: eight goroutines make their first range read on one freshly
+// opened file node with thousands of dag-pb children (recorded BlockSizes) at the same moment; together they fetch no
+// block outside their ranges.
+func TestC05_R_ConcurrentFirstRangeReadsOnAWideNode(t *testing.T) {
+	const nl = 20000
+	root := &mnode{HasData: true, UFS: &ufsFields{Type: 2}}
+	var data []byte
+	for i := 0; i < nl; i++ {
+		c := []byte{byte(i), byte(i >> 8)}
+		data = append(data, c...)
+		root.Links = append(root.Links, mlink{Tsize: i64p(10), Child: &mnode{HasData: true, UFS: &ufsFields{Type: 2, HasData: true, Data: c, FileSize: u64p(2)}}})
+		root.UFS.BlockSizes = append(root.UFS.BlockSizes, 2)
+	}
+	root.UFS.FileSize = u64p(uint64(len(data)))
+	st := NewStore()
+	st.Yield = true
+	ls := st.LinkSystem()
+	rc, err := root.store(st, ls)
+	if err != nil {
+		t.Fatal(err)
+	}
+	tree, err := st.FileTree(rc, 0)
+	if err != nil {
+		t.Fatal(err)
+	}
+	const G = 8
+	for trial := 0; trial < 5; trial++ {
+		rn, err := loadReified(ls, rc, "unixfs")
+		if err != nil {
+			t.Fatal(err)
+		}
+		st.ResetLogs()
+		allowed := map[cid.Cid]bool{}
+		offs := make([]int64, G)
+		for g := range offs {
+			offs[g] = int64(len(data)) - 7 - int64(g*(trial%2)*4001)
+			tree.Needed(offs[g], offs[g]+7, allowed)
+		}
+		errs := make([]string, G)
+		var wg sync.WaitGroup
+		start := make(chan struct{})
+		for g := 0; g < G; g++ {
+			wg.Add(1)
+			go func(g int) {
+				defer wg.Done()
+				<-start
+				rs, err := rn.(datamodel.LargeBytesNode).AsLargeBytes()
+				if err != nil {
+					errs[g] = err.Error()
+					return
+				}
+				if _, err := rs.Seek(offs[g], io.SeekStart); err != nil {
+					errs[g] = err.Error()
+					return
+				}
+				buf := make([]byte, 7)
+				if _, err := io.ReadFull(rs, buf); err != nil || !bytes.Equal(buf, data[offs[g]:offs[g]+7]) {
+					errs[g] = fmt.Sprintf("read at %d: %x, %v", offs[g], buf, err)
+				}
+			}(g)
+		}
+		close(start)
+		wg.Wait()
+		for _, e := range errs {
+			if e != "" {
+				t.Fatalf("C05: concurrent first range reads on a %d-link node: %s", nl, e)
+			}
+		}
+		log := st.ReadLog()
+		if c, ok := subsetOf(log, allowed); !ok {
+			t.Fatalf("C05: %d goroutines making their first range read (7 bytes each) on one fresh node of %d dag-pb children (trial %d): %d blocks were requested, among them %s which no range needs (the ranges need %d blocks)", G, nl, trial, len(cidSet(log)), c, len(allowed))
+		}
+	}
 }
